@@ -1828,6 +1828,13 @@ func closureTargets(v ssa.Value) []*ssa.Function {
 // (var m = map[K]V{k1: c1, ...}) and afterwards only read by lookups and len: nothing in the package stores into the
 // variable again, updates or deletes an entry, or lets the map value go anywhere else. ok is false otherwise.
 func constMapValues(pkg *ssa.Package, g *ssa.Global) (vals []int64, ok bool) {
+	vals, _, ok = constMapEntries(pkg, g)
+	return vals, ok
+}
+
+// constMapEntries: the same, with the entries whose key is an integer constant as well (key -> value).
+func constMapEntries(pkg *ssa.Package, g *ssa.Global) (vals []int64, entries map[int64]int64, ok bool) {
+	entries = map[int64]int64{}
 	initFn := pkg.Func("init")
 	okAll := true
 	var mk *ssa.MakeMap
@@ -1851,6 +1858,9 @@ func constMapValues(pkg *ssa.Package, g *ssa.Global) (vals []int64, ok bool) {
 				}
 				if k, isK := constIntOf(r.Value); isK {
 					vals = append(vals, k)
+					if key, isKey := constIntOf(r.Key); isKey {
+						entries[key] = k
+					}
 				} else if b, isB := constBool(r.Value); isB {
 					if b {
 						vals = append(vals, 1)
@@ -1909,10 +1919,10 @@ func constMapValues(pkg *ssa.Package, g *ssa.Global) (vals []int64, ok bool) {
 		}
 	}
 	if nStores != 1 || mk == nil {
-		return nil, false
+		return nil, nil, false
 	}
 	mapValueOK(mk, true)
-	return vals, okAll
+	return vals, entries, okAll
 }
 
 // constSetOf: the constants a value can be: a constant, or what a lookup in a constant package-level map yields (the
